@@ -389,6 +389,7 @@ static size_t run_line(size_t pc, int in_child, int *stop) {
     } else if (!strcmp(c, "chdir")) { unsigned char *a = unhex(tok[1], &n); if (chdir((char *) a)) opf("{\"ev\":\"error\",\"what\":\"chdir: %s\"}\n", strerror(errno)); free(a);
     } else if (!strcmp(c, "umask")) { umask((mode_t) strtol(tok[1], NULL, 8));
     } else if (!strcmp(c, "name")) { unsigned char *a = unhex(tok[1], &n); prctl(PR_SET_NAME, a); free(a);
+    } else if (!strcmp(c, "snapnow")) { opf("{\"ev\":\"snapnow\",\"label\":\"%s\",", ntok > 1 ? tok[1] : ""); snapshot("snap"); opf("}\n"); oflush();
     } else if (!strcmp(c, "sigblock")) { sigset_t s; sigemptyset(&s); sigaddset(&s, atoi(tok[1])); sigprocmask(SIG_BLOCK, &s, NULL);
     } else if (!strcmp(c, "sighandlers")) { for (int s = 1; s < 32; s++) if (s != SIGKILL && s != SIGSTOP && s != SIGCHLD && s != SIGSEGV && s != SIGBUS && s != SIGILL && s != SIGFPE && s != SIGABRT) signal(s, onsig);
     } else if (!strcmp(c, "path")) { free(cur.path); cur.path = unhex(tok[1], &n);
